@@ -650,8 +650,8 @@ def gen_cases(tier, rng):
         pick = {"usp": rng.sample(idx["usp"], 8), "eco": rng.sample(idx["eco"], 10)}
         nfor, k_sub, k_tpl, cap = 2, 1, 1, 14.0
     else:
-        pick = {"usp": rng.sample(idx["usp"], 60), "eco": rng.sample(idx["eco"], 100)}
-        nfor, k_sub, k_tpl, cap = 4, 2, 2, 30.0
+        pick = {"usp": rng.sample(idx["usp"], 40), "eco": rng.sample(idx["eco"], 70)}
+        nfor, k_sub, k_tpl, cap = 3, 2, 2, 30.0
     for name in ("usp", "eco"):
         for n_, (i, mode) in enumerate(pick[name]):
             inv = rng.random() < 0.5
